@@ -619,7 +619,7 @@ def c10(run):
 # ------------------------------------------------------------------------------------------- C19
 @check("C19", rule="one program per (macro, variant, payload, argument form closure/function path) for the option:: and "
                     "result:: macros (value and whether the fallback ran, std method as guard), per rebind pattern "
-                    "(arity 1..4 quick / 1..5 thorough, each position place / let / typed let / _) for try_rebind! and "
+                    "(arity 1..5 quick / 1..6 thorough, each position place / let / typed let / _) for try_rebind! and "
                     "rebind_if_ok!, per key pair for min!/max!/_by/_by_key, plus try_! / try_opt!; non-trivial = payload "
                     "reaches the closure or arity >= 2")
 def c19(run):
